@@ -153,3 +153,18 @@ func TestF15e_ResponseOwnershipStress(t *testing.T) {
 		t.Fatalf("%d responses did not belong to their request", wrong.Load())
 	}
 }
+
+// F15g (C18): updating an existing host entry re-aliased the stored map key to the caller's buffer.
+func TestF15g_JarKeyNotAliased(t *testing.T) {
+	jar := &client.CookieJar{}
+	buf := []byte("a.example")
+	jar.SetByHost(buf, mkCookie("k1", "v1", "", time.Time{}))
+	jar.SetByHost(buf, mkCookie("k2", "v2", "", time.Time{})) // existing key: `hostCookies[unsafeString(buf)] = …` replaces the stored key
+	copy(buf, "b.example")                                    // the caller reuses its buffer (pooled requests do)
+	if n := len(jar.Get(uriOf("http://a.example/"))); n != 2 {
+		t.Fatalf("cookies stored for a.example: jar returns %d of 2 after the caller's host buffer was reused", n)
+	}
+	if n := len(jar.Get(uriOf("http://b.example/"))); n != 0 {
+		t.Fatalf("jar returns %d cookies for b.example, which never stored any", n)
+	}
+}
